@@ -1179,3 +1179,22 @@ Proof.
   destruct (RP_run _ _ _ sc HRP) as [_ HR'].
   apply (driver_quiescent_finished a0 progs d _ Hwf HR' HQ).
 Qed.
+
+(* ---------- a refused activate() is a no-op ----------
+   activate() returns false exactly when its first (and then only) operation, the load of `activated`, reads true;
+   that call consists of this single step, which changes nothing but the ghost clock - in particular it does not
+   clear `triggered`, so a refused activate() cannot wipe the trigger of the running cycle *)
+Lemma refused_activate_noop t c g l g' l' es :
+  cur_op (at_ l) = Some Activate -> tstep t c g l = Some (g', l', es) ->
+  (In (ret_ev 0%Z) es <-> at_ l = A_load /\ activated g = true) /\
+  (In (ret_ev 0%Z) es -> g' = tick g /\ at_ l' = Idle /\ es = [ESC K_LOAD O_ACT 1%Z; ret_ev 0%Z]) /\
+  (In (ret_ev 1%Z) es -> at_ l = A_unlockA).
+Proof.
+  intros Hop Hs. destruct l as [pr p s1 s2 s3 s4]. cbn [at_] in *.
+  step_cases Hs; cbn in Hop; try discriminate; try (destruct tm; discriminate); try (destruct k; discriminate).
+  all: refine (conj (conj _ _) (conj _ _)).
+  all: try (intros Hret;
+            first [ destruct Hret as [Ha Hb]; (discriminate || congruence)
+                  | cbn in Hret; repeat (destruct Hret as [Hret|Hret]; try discriminate); try contradiction ]).
+  all: cbn; auto.
+Qed.
